@@ -74,6 +74,8 @@ func (h *Handler) handleDiscover(p packet.DHCP4, options packet.DHCP4Options) (d
 	case StateDiscover:
 		if !bytes.Equal(lease.XID, p.XId()) { // new discover packet
 			lease.IPOffer = netip.Addr{}
+		} else if l := h.findByIP(lease.IPOffer); l != nil && l != lease && l.State == StateAllocated {
+			lease.IPOffer = netip.Addr{} // the address went to another client that was offered it too
 		}
 
 	// a freed lease has no outstanding offer: an offer that expired with it may belong to another client by now
